@@ -164,10 +164,11 @@ def run_bounded(limit, fn, *a, **kw):
     import signal
     import time
     from srx import core
-    state = dict(t0=time.time(), s0=core.IN_SOLVER[1])
+    # CPU time of this process outside the solver (wall time would trip under machine load)
+    state = dict(t0=time.process_time(), s0=core.IN_SOLVER[1])
 
     def handler(signum, frame):
-        spent = (time.time() - state["t0"]) - (core.IN_SOLVER[1] - state["s0"])
+        spent = (time.process_time() - state["t0"]) - (core.IN_SOLVER[1] - state["s0"])
         if core.IN_SOLVER[0] > 0 or spent < limit:
             signal.setitimer(signal.ITIMER_REAL, max(0.5, min(limit, limit - spent)))
             return
